@@ -219,7 +219,7 @@ Fixpoint norm (j : json) (st : nst) {struct j} : json * nst :=
 
 Definition show_archive (a : archive) : pstr :=
   let (j, st) := norm (a_schema a) ([], []) in
-  let names := map (fun n => match index_pstr n (snd st) 0%N with Some i => member_alias i n | None => n end)
+  let names := map (fun n => match index_pstr n (snd st) 0%N with Some i => member_alias i n | None => s "orphan" ++ suffix n end)
                    (map fst (a_members a)) in
   render_json j ++ 124%N :: join [44%N] (sort_texts names).
 
